@@ -60,16 +60,16 @@ CHECKS = {
         design="§4 C07"),
     "C08": dict(
         category="exploration",
-        technique="ThreadSanitizer (and helgrind in the thorough tier) on a multi-threaded stress of the re-entrant API + sequential result table + positive control",
+        technique="ThreadSanitizer (and helgrind in the thorough tier) on a multi-threaded stress of the re-entrant API (default build and one using the library's own explicit_bzero; libc's explicit_bzero and arc4random_buf stores repeated from instrumented code) + sequential result table + positive control",
         text="No TSan/helgrind report with a library frame and no per-thread result differing from the sequential table on the "
              "executed runs (2..16 threads, measured overlap); the crypt_gensalt() control made TSan report.",
         note="Only the schedules that ran and the configured RNG path are judged.",
         design="§4 C08"),
     "C09": dict(
         category="exploration",
-        technique="runtime monitoring: data-object byte scan (ASan build and a -O2 build using the library's own explicit_bzero), poisoned private stack scan (-O0, -z now), realloc/munmap ledger inspection, entropy-buffer probe, primitive context checks",
+        technique="runtime monitoring: data-object byte scan (ASan build and a -O2 build using the library's own explicit_bzero), poisoned private stack scan and scan of the program's static storage (-O0, -z now), realloc/munmap ledger inspection, entropy-buffer probe, primitive context checks",
         text="After every executed call internal/reserved/initialized were zero (validation passed) or untouched (validation failed); "
-             "no pass-phrase encoding was left in the object, the dead stack frames, reallocated or unmapped memory; entropy buffers and "
+             "no pass-phrase encoding was left in the object, the dead stack frames, static storage, reallocated or unmapped memory; entropy buffers and "
              "digest contexts were zero.",
         note="Stack claim for -O0 only; copies shorter than the 8-byte window and registers are out of reach.",
         design="§4 C09"),
@@ -105,7 +105,7 @@ CHECKS = {
         category="exploration",
         technique="runtime monitoring: link-time malloc/realloc/free ledger over crypt_ra / crypt_gensalt_ra call histories (ASan build; four further --enable-hashes selections)",
         text="On every executed history from every start class *data stayed a live block of >= *size >= 32768 bytes, grown blocks were "
-             "erased before and zero after, results pointed into the block, nothing leaked or was freed twice.",
+             "erased before and zero after, results pointed into the block, nothing (heap block or mapping) leaked or was freed twice; start classes include NULL blocks with stale sizes.",
         note="'Erased before growing' judged only when the recorded size equals the real block size.",
         design="§4 C14"),
     "C15": dict(
